@@ -402,9 +402,31 @@ def c06_3(ctx: Ctx) -> RuleResult:
     ctxcls = ctx.repo.classes.get("ropt.evaluator._evaluator.EvaluatorContext")
     if ctxcls is not None and "__post_init__" in ctxcls.methods:
         m = ctxcls.methods["__post_init__"]
-        reds = [s for s in subterms(norm(X.return_term(m))) if s[0] == "call"] + [norm(X.at(m, c)) for c in calls_in(m)]
-        ok = any(s[0] == "call" and s[1] == G("numpy.any") and any(k == "axis" and v == C(0) for k, v in s[3]) for s in reds) and not any(s[0] == "call" and s[1] == G("numpy.all") for s in reds)
-        res.add(m, m.node, "a realization is active if it is active for any function (OR over the function axis)", ok, "" if ok else "realization activity is not the OR over functions", construct="EvaluatorContext: OR over functions")
+        # the value stored into `active`: built only from None, any(<flag matrix>, axis=0) and `|`
+        seen_fields: set[str] = set()
+
+        def or_only(t) -> bool:
+            if t == C(None):
+                return True
+            if t[0] == "phi":
+                return all(or_only(a) for a in t[1])
+            if t[0] == "ifexp":
+                return or_only(t[2]) and or_only(t[3])
+            if t[0] == "binop" and t[1] == "|":
+                return or_only(t[2]) and or_only(t[3])
+            if t[0] == "call" and t[1] == G("numpy.any") and len(t[2]) == 1 and any(k == "axis" and v == C(0) for k, v in t[3]):
+                a = t[2][0]
+                if a[0] == "attr" and a[1][0] == "param":
+                    seen_fields.add(a[2])
+                    return True
+            return False
+
+        stores = [n for n in nodes_in(m, ast.Assign) if any(isinstance(t_, ast.Attribute) and t_.attr == "active" for t_ in n.targets)]
+        bad = [n for n in stores if not or_only(norm(X.value_at(m, n.value)))]
+        ok = bool(stores) and not bad and len(seen_fields) >= 2
+        res.add(m, (bad[0] if bad else m.node), "a realization is active iff it is active for any objective or any constraint (OR over the function axis, OR of the two kinds)", ok,
+                "" if ok else (f"`{norm_stmt(bad[0])[:80]}` is not an OR of the per-function flags: a realization needed by one function can be flagged inactive" if bad else "the per-realization summary does not cover objectives and constraints"),
+                construct="EvaluatorContext: OR over functions")
     res.floor = 4
     return res
 
